@@ -108,6 +108,11 @@ fn run_sched(exe: &Path, table: &Path, seed: u64, iters: usize, sched: &str, dir
         .chain(stdout.lines())
         .find(|l| l.contains("MISMATCH"))
         .map(|l| l[l.find("MISMATCH").unwrap()..].to_string())
+        .or_else(|| {
+            // a thread of the scenario panicked for another reason (e.g. an input that no longer decodes)
+            let ls: Vec<&str> = stderr.lines().collect();
+            ls.iter().position(|l| l.contains("panicked at") && !l.contains("shuttle")).map(|i| format!("a thread panicked: {}", ls[i..ls.len().min(i + 2)].join(" ")))
+        })
         .unwrap_or_else(|| stderr.lines().rev().take(6).collect::<Vec<_>>().join(" | "));
     if schedule.is_empty() {
         return Err(Harness(format!("simthreads run failed without a persisted schedule: {msg}")));
